@@ -1042,8 +1042,12 @@ impl SparqlDatabase {
 
                     let subject =
                         this.resolve_query_term(&Self::clean_turtle_term(s_raw), &this.prefixes);
-                    let predicate =
-                        this.resolve_query_term(&Self::clean_turtle_term(p_raw), &this.prefixes);
+                    // `a` in predicate position is the Turtle keyword for rdf:type.
+                    let predicate = if p_raw == "a" {
+                        "http://www.w3.org/1999/02/22-rdf-syntax-ns#type".to_string()
+                    } else {
+                        this.resolve_query_term(&Self::clean_turtle_term(p_raw), &this.prefixes)
+                    };
                     let object = this
                         .resolve_query_term(&Self::clean_turtle_term(&object_part), &this.prefixes);
 
